@@ -22,7 +22,8 @@ RECURSIVE Outs(_, _, _, _)
 Outs(p, s, i, acc) == IF i > Len(s) THEN acc
                       ELSE Outs(p, s, i + 1, IF i % p = 0 THEN Append(acc, CTDef(p, SubSeq(s, 1, i)).c) ELSE acc)
 BatchInv == Collapse(xs, st.period, FALSE) = Outs(st.period, xs, 1, <<>>)
-Emit == (Len(xs) = Depth) =>
+\* (printed at three lengths, so that every residue Len mod period occurs, and a sequence shorter than the period)
+Emit == (Len(xs) \in {3, Depth - 1, Depth}) =>
            PrintT(<<"REPLAY", ToJson([period |-> st.period, xs |-> xs,
                                       outs |-> [i \in 1..Len(xs) |-> CTDef(st.period, SubSeq(xs, 1, i))],
                                       batch |-> Collapse(xs, st.period, FALSE), sliding |-> Collapse(xs, st.period, TRUE)])>>)
